@@ -22,7 +22,7 @@ func init() {
 	}
 }
 
-var c10Entries = []string{"VerifTemplate", "VerifTail", "VerifTailNL", "VerifActionTail", "VerifClassTail"}
+var c10Entries = []string{"VerifTemplate", "VerifTail", "VerifTailNL", "VerifActionTail", "VerifClassTail", "VerifEndTail"}
 
 func addC10Harness(ws *Workspace) error {
 	src, err := os.ReadFile(filepath.Join(verifRoot, "harness", "c10", "zz_verif_c10.go.txt"))
@@ -57,6 +57,7 @@ func checkC10(c *Ctx) error {
 		jobs = append(jobs, &Job{PkgPath: pegPkg, Entry: "VerifTail", Args: []int{k}, Label: "front-end"})
 		jobs = append(jobs, &Job{PkgPath: pegPkg, Entry: "VerifTailNL", Args: []int{k}, Label: "front-end"})
 		jobs = append(jobs, &Job{PkgPath: pegPkg, Entry: "VerifActionTail", Args: []int{k + 1}, Label: "front-end"})
+		jobs = append(jobs, &Job{PkgPath: pegPkg, Entry: "VerifEndTail", Args: []int{k}, Label: "front-end"})
 		jobs = append(jobs, &Job{PkgPath: pegPkg, Entry: "VerifClassTail", Args: []int{k + 1}, Label: "front-end"})
 	}
 	cfg := symx.DefaultConfig()
